@@ -4,6 +4,7 @@ package c05
 
 import (
 	"bytes"
+	"crypto/sha256"
 	"fmt"
 	"math/big"
 	"sync"
@@ -173,3 +174,60 @@ func propBaseMult(t *rapid.T) {
 }
 
 func TestC05_BaseMult(t *testing.T) { rapid.Check(t, propBaseMult) }
+
+// propDifferentialVolume is the high-volume tier: a defect confined to a
+// ~2^-20..2^-25 fraction of scalars (e.g. a lost carry in one step of the
+// mixed-addition formula for particular intermediate limbs) cannot be steered
+// to from the scalar, and the math/big reference (1.6 ms per product) is too
+// slow to reach it by volume.  Here every drawn 32-byte seed is expanded
+// (SHA-256 in counter mode, so the case is still a pure function of the rapid
+// draw) into a batch of scalars and three independent library code paths are
+// compared per scalar: the constant-time fixed-base comb (affine tables, mixed
+// additions), the variable-time fixed-base path (huge table) and the generic
+// GLV variable-base multiplication of G (projective tables, complete
+// additions).  The generic path is itself checked against the reference in
+// C04; the first scalar of every batch is also checked against the reference
+// here.
+func propDifferentialVolume(t *rapid.T) {
+	seed := gen.Bytes(t, 32, 32, "seed")
+	const batch = 64
+	g := secp256k1.NewGeneratorPoint()
+	zero := secp256k1.NewScalar()
+	zeroNib := 0
+	for i := 0; i < batch; i++ {
+		h := sha256.Sum256(append(append([]byte("verif/c05/volume"), seed...), byte(i)))
+		if i%8 == 7 { // sparse variant: keep only some bytes, many zero windows
+			for j := range h {
+				if h[(j+1)%32]&3 != 0 {
+					h[j] = 0
+				}
+			}
+		}
+		s := ref.Mod(ref.Int(h[:]), ref.N)
+		ls := lib.Sc(s)
+		a := secp256k1.NewIdentityPoint().ScalarBaseMult(ls).UncompressedBytes()
+		b := secp256k1.NewIdentityPoint().ScalarMult(ls, g).UncompressedBytes()
+		c := secp256k1.NewIdentityPoint().DoubleScalarMultBasepointVartime(ls, zero, g).UncompressedBytes()
+		if !bytes.Equal(a, b) || !bytes.Equal(c, b) {
+			want := ref.BaseMul(s).Uncompressed()
+			t.Fatalf("s=%x: ScalarBaseMult=%x ScalarMult(s,G)=%x DoubleScalarMultBasepointVartime(s,0,G)=%x reference=%x", s, a, b, c, want)
+		}
+		if i == 0 {
+			if want := ref.BaseMul(s).Uncompressed(); !bytes.Equal(a, want) {
+				t.Fatalf("s=%x: all three library paths agree on %x but the reference says %x", s, a, want)
+			}
+		}
+		for _, by := range h {
+			if by>>4 == 0 || by&15 == 0 {
+				zeroNib++
+				break
+			}
+		}
+	}
+	stat.Case("differential-volume", []string{fmt.Sprintf("batch:%d", batch)}, zeroNib > 0, seed, func() any {
+		return map[string]any{"seed": stat.Hex(seed), "scalars_in_batch": batch, "scalars_with_a_zero_nibble": zeroNib}
+	})
+	stat.Note("differential-volume", fmt.Sprintf("each evaluation is a batch of %d scalars expanded from the drawn seed", batch))
+}
+
+func TestC05_DifferentialVolume(t *testing.T) { rapid.Check(t, propDifferentialVolume) }
